@@ -835,7 +835,7 @@ def _random_trace(job):
                    (op['a'] in ('ReadRaise', 'ReadInvalid') and (ch.get('via') == 'poll' or ch.get('errobj') == 'reused'))
         if deviates:
             break
-    return {'trace': tr, 'shape': shape}
+    return {'trace': tr, 'shape': shape, 'job': list(job)}
 
 
 # ------------------------------------------------------------------ code -> spec: controlled real threads
@@ -957,7 +957,7 @@ def _threaded_trace(job):
         w.events.append({'op': errors[0][0], 'now': int(Clock.now), 'c': {}, 'w': {}, 'o': {}, 's': {}, 'unl': 0,
                          'lk': False, 'err': str(errors[0][1])})
     return {'trace': [first] + w.events, 'shape': shape, 'scripts': scripts, 'plans': plans, 'sched': sched,
-            'blocked': dict(ctl.blocked)}
+            'blocked': dict(ctl.blocked), 'job': list(job)}
 
 
 # ------------------------------------------------------------------ check
@@ -994,13 +994,15 @@ def run(chk):
     gens = [f'Gen_ParamCache_{tier}.cfg', f'Gen_ParamCache_cover_{tier}.cfg'] if quick else \
            [f'Gen_ParamCache_thorough_{k}.cfg' for k in ('a', 'b', 'c')] + ['Gen_ParamCache_cover_thorough.cfg']
     # all TLC jobs are subprocesses: start them side by side (threads only wait for them)
-    with ThreadPoolExecutor(max_workers=4 if quick else 3) as ex:
+    with ThreadPoolExecutor(max_workers=4) as ex:
         f_gen = [ex.submit(emit_behaviours, 'Gen_ParamCache', cfg, maximal_only=False, timeout=1100,
                            heap='3g' if quick else '8g') for cfg in gens[:2]]
         f_mc = [ex.submit(model_check, 'ParamCache', f'MC_ParamCache_{tier}.cfg', timeout=1100, workers=ncpu, heap='3g'),
                 ex.submit(model_check, 'ParamCacheConc', f'MC_ParamCacheConc_{tier}.cfg', timeout=1100, workers=ncpu,
                           heap='3g' if quick else '8g'),
                 ex.submit(run_tlc, 'ParamCacheConc', 'MC_ParamCacheConc_nolock.cfg', timeout=600, workers=2, heap='2g')]
+        # every operation of the full alphabet (the two configurations above explore one representative per funnel call)
+        f_mc.append(ex.submit(model_check, 'ParamCache', 'MC_ParamCache_full.cfg', timeout=600, workers=2, heap='2g'))
         if not quick:
             f_mc.append(ex.submit(model_check, 'ParamCacheConc', 'MC_ParamCacheConc_thorough3.cfg', timeout=1100,
                                   workers=ncpu, heap='8g'))
@@ -1009,16 +1011,16 @@ def run(chk):
 
         # 3/4 code -> spec drivers run while TLC enumerates
         t0 = _time.time()
-        n = 220 if quick else 6000
-        seq = pool_map(_random_trace, [(chk.seed * 1000003 + i, 60 if quick else 120) for i in range(n)])
-        n = 120 if quick else 3000
+        n = 220 if quick else 2500
+        seq = pool_map(_random_trace, [(chk.seed * 1000003 + i, 60 if quick else 100) for i in range(n)])
+        n = 120 if quick else 1500
         thr = pool_map(_threaded_trace, [(chk.seed * 1000003 + i, 2 + i % 2, 3 if quick else 4) for i in range(n)])
         phase['drivers'] = round(_time.time() - t0, 1)
         probes = _corrupted(seq)
         f_tr = [ex.submit(_validate, seq + [p for p, _ in probes]), ex.submit(_validate, thr)]
 
         # 2 spec -> code
-        nshape = 1 if quick else 2
+        nshape = 1
         nbeh = 0
         for cfg, f in zip(gens, f_gen):
             r, behs = f.result()
@@ -1130,5 +1132,11 @@ def replay(chk, rep):
             print({k: e.get(k) for k in ('th', 'op', 'now', 'c', 'o', 'unl', 'lk', 'ch') if k in e})
         print('rejected at event', d['failed_at'], ':', d.get('event', {}) and d['event'].get('op'))
         v, _, _ = validate_traces('Trace_ParamCache', [_strip(d['trace'])], 'Trace_ParamCache.cfg')
-        print('Trace_ParamCache verdict now:', v[0])
+        print('Trace_ParamCache verdict on the recorded trace:', v[0])
+        if 'job' in d:
+            rec = (_threaded_trace if d['mode'] == 'thr' else _random_trace)(tuple(d['job']))
+            v, _, _ = validate_traces('Trace_ParamCache', [_strip(rec['trace'])], 'Trace_ParamCache.cfg')
+            print('re-executed', d['mode'], 'job', d['job'], '->', len(rec['trace']), 'events, verdict now:', v[0])
+            if v[0]:
+                print('   event:', rec['trace'][v[0][0] - 1])
     return 0
